@@ -26,6 +26,82 @@ func consensusPkg(p string) bool {
 
 func q(s string) string { return "\"" + strings.ReplaceAll(strings.ReplaceAll(s, "\\", "\\\\"), "\"", "\\\"") + "\"" }
 
+// outerWrites: what the body of a map-range loop does to anything that outlives one iteration — assignments / inc-dec whose
+// left-hand side is rooted in a variable declared outside the loop (printed), and the control statements that end the loop early.
+// These are the only ways the iteration ORDER can escape the loop besides calls; the classification of a site (keyed / sum /
+// sorted / firstMatch / events) in NibiruModel.Determinism rests on this list, which is compared as a regenerated fact.
+func outerWrites(p *packages.Package, v *ast.RangeStmt) []string {
+	root := func(e ast.Expr) *ast.Ident {
+		for {
+			switch x := e.(type) {
+			case *ast.Ident:
+				return x
+			case *ast.SelectorExpr:
+				e = x.X
+			case *ast.IndexExpr:
+				e = x.X
+			case *ast.StarExpr:
+				e = x.X
+			case *ast.ParenExpr:
+				e = x.X
+			default:
+				return nil
+			}
+		}
+	}
+	outside := func(e ast.Expr) bool {
+		id := root(e)
+		if id == nil || id.Name == "_" {
+			return false
+		}
+		obj := p.TypesInfo.ObjectOf(id)
+		if obj == nil {
+			return true
+		}
+		return obj.Pos() < v.Pos() || obj.Pos() > v.End()
+	}
+	set := map[string]bool{}
+	ast.Inspect(v.Body, func(n ast.Node) bool {
+		switch x := n.(type) {
+		case *ast.FuncLit:
+			return false
+		case *ast.AssignStmt:
+			for i, l := range x.Lhs {
+				if outside(l) {
+					rhs := "…"
+					if len(x.Rhs) == len(x.Lhs) {
+						rhs = types.ExprString(x.Rhs[i])
+					} else if len(x.Rhs) == 1 {
+						rhs = types.ExprString(x.Rhs[0])
+					}
+					set[types.ExprString(l)+" "+x.Tok.String()+" "+rhs] = true
+				}
+			}
+		case *ast.IncDecStmt:
+			if outside(x.X) {
+				set[types.ExprString(x.X)+x.Tok.String()] = true
+			}
+		case *ast.ReturnStmt:
+			var rs []string
+			for _, r := range x.Results {
+				rs = append(rs, types.ExprString(r))
+			}
+			set["return "+strings.Join(rs, ", ")] = true
+		case *ast.BranchStmt:
+			if x.Tok.String() == "break" || x.Tok.String() == "goto" {
+				set[x.Tok.String()] = true
+			}
+		}
+		return true
+	})
+	var out []string
+	for k := range set {
+		out = append(out, q(strings.Join(strings.Fields(k), " ")))
+	}
+	sort.Strings(out)
+	return out
+}
+
 func main() {
 	repo := os.Args[1]
 	cfg := &packages.Config{Mode: packages.NeedName | packages.NeedFiles | packages.NeedSyntax | packages.NeedTypes | packages.NeedTypesInfo, Dir: repo}
@@ -38,7 +114,7 @@ func main() {
 	for _, p := range pkgs {
 		nerr += len(p.Errors)
 	}
-	var ranges, gos, selects, nows, slices []string
+	var ranges, gos, selects, nows, slices, writes []string
 	for _, p := range pkgs {
 		rel := strings.TrimPrefix(p.PkgPath, "github.com/NibiruChain/nibiru/v2/")
 		if !consensusPkg(rel + "/") {
@@ -75,6 +151,7 @@ func main() {
 						if t := p.TypesInfo.TypeOf(v.X); t != nil {
 							if _, ok := t.Underlying().(*types.Map); ok {
 								ranges = append(ranges, site+":"+types.ExprString(v.X))
+								writes = append(writes, fmt.Sprintf("(%s, [%s])", q(site+":"+types.ExprString(v.X)), strings.Join(outerWrites(p, v), ", ")))
 							}
 						}
 					case *ast.GoStmt:
@@ -97,7 +174,7 @@ func main() {
 			}
 		}
 	}
-	for _, l := range []*[]string{&ranges, &gos, &selects, &nows, &slices} {
+	for _, l := range []*[]string{&ranges, &gos, &selects, &nows, &slices, &writes} {
 		sort.Strings(*l)
 	}
 	qs := func(l []string) string {
@@ -111,6 +188,7 @@ func main() {
 	fmt.Println("namespace Generated")
 	fmt.Printf("def mapRangeLoadErrors : Nat := %d\n", nerr)
 	fmt.Printf("def mapRangeSites : List String := %s\n", qs(ranges))
+	fmt.Printf("def mapRangeOuterWrites : List (String × List String) := [%s]\n", strings.Join(writes, ",\n  "))
 	fmt.Printf("def goStmtSites : List String := %s\n", qs(gos))
 	fmt.Printf("def selectStmtSites : List String := %s\n", qs(selects))
 	fmt.Printf("def timeNowSites : List String := %s\n", qs(nows))
